@@ -607,8 +607,7 @@ def rule_json_shapes(ctx):
             a = item_attrs(it, 'serde')
             if 'deny_unknown_fields' in a:
                 obs.append(bad('JSON-SHAPES', it['name'] + '/deny_unknown_fields', 'deny_unknown_fields', it['loc'], 'introspection results with extra members are rejected'))
-            if it['kind'] == 'struct' and it['name'] not in ('SchemaContainer', 'FullResponse') and any(f['name'].count('_') for f in it['fields']) and a.get('rename_all') != 'camelCase':
-                obs.append(bad('JSON-SHAPES', it['name'] + '/camelCase', 'multi-word members without rename_all = camelCase', it['loc'], 'members like inputFields/ofType are not read'))
+            # (the wire key of every member is decided by INTRO-KEYS from the effective serde attributes)
     # EXT-DISPATCH
     fn = ctx.fn('codegen', 'graphql_client_codegen::get_set_schema_from_file')
     if fn is None:
